@@ -66,14 +66,20 @@ class Scientific(Harness):
 
     def native(self, inputs, label):
         v = Fraction(inputs['v'])
-        base = int(inputs['base'])
-        mode = inputs['mode'].lower()
-        suffix = {'default': '', 'scientific': ' scientific', 'engineering': ' engineering'}[mode]
-        btxt = {2: ' binary', 8: ' octal', 10: '', 16: ' hex', 36: ' base 36'}[base]
-        return [{'mode': 'query', 'text': '%s ->%s%s' % (frac_text(v), btxt, suffix)}]
+        return [{'mode': 'rat_to_string', 'fn': 'to_scientific', 'v': '%d/%d' % (v.numerator, v.denominator), 'base': int(inputs['base']),
+                 'digits': inputs['mode']}]
 
     def judge(self, inputs, label, obs):
-        return 'kernel-only', 'display: %s' % obs[0].get('display')
+        o = obs[0]
+        if o.get('outcome') != 'ok':
+            return True, 'to_scientific: %s %s' % (o.get('outcome'), o.get('panic', ''))
+        base, v = int(inputs['base']), Fraction(inputs['v'])
+        pr = numeral_problem(o['text'], o['exact'], v, base, sci=True)
+        if pr is None and inputs['mode'] == 'Engineering' and read_numeral(o['text'], base, True)['exp'] % 3:
+            pr = 'engineering exponent of %r is not a multiple of 3' % o['text']
+        if pr is None and '.' not in o['text']:
+            pr = 'scientific numeral %r has no radix point' % o['text']
+        return (pr is not None), pr or 'to_scientific(%s, base %d) = %r denotes the value' % (v, base, o['text'])
 
 
 class Recurring(Harness):
@@ -121,16 +127,23 @@ class Recurring(Harness):
         return c
 
     def native(self, inputs, label):
+        # n/d in [0,1): to_string's long division asks is_recurring(base, 10) about exactly this remainder at the first
+        # fraction digit (and is_recurring(base, 4) when it runs out of budget)
         n, d = int(inputs['n']), int(inputs['d'])
         base = int(inputs['base'])
-        btxt = {2: ' binary', 8: ' octal', 10: '', 16: ' hex', 36: ' base 36'}[base]
-        return [{'mode': 'query', 'text': '(%d/%d) ->%s digits 30' % (n, d, btxt)}]
+        return [{'mode': 'rat_to_string', 'fn': 'to_string', 'v': '%d/%d' % (n, d), 'base': base, 'digits': dg} for dg in ('FullInt', '0', '3')]
 
     def judge(self, inputs, label, obs):
-        q = obs[0]
-        if q.get('outcome') == 'panic' or q.get('render_panic'):
-            return True, 'panic %s' % (q.get('panic') or q.get('render_panic'))
-        return 'kernel-only', 'display %s' % q.get('display')
+        bad = []
+        v = Fraction(int(inputs['n']), int(inputs['d']))
+        for o in obs:
+            if o.get('outcome') != 'ok':
+                bad.append('to_string: %s %s' % (o.get('outcome'), o.get('panic', '')))
+                continue
+            pr = numeral_problem(o['text'], o['exact'], v, int(inputs['base']), sci=False)
+            if pr:
+                bad.append(pr)
+        return bool(bad), '; '.join(bad[:2]) or 'numerals %s denote %s' % ([o.get('text') for o in obs], v)
 
 
 def stub_to_string(ex, nc, args):
@@ -196,11 +209,32 @@ class ExactMarker(Harness):
             obs.append(('a rational always gets a numeral', False))
         return obs
 
+    PROBES = ['2^64', '10^9 + 1', '12345678901', '123456789 -> scientific', '1/3', '1/3000', '1/7', '22/7', '1e-10 + 1e-20']
+
     def native(self, inputs, label):
-        return [{'mode': 'query', 'text': '1/3'}, {'mode': 'query', 'text': '1/3000'}, {'mode': 'query', 'text': '1/7'}]
+        v = Fraction(inputs['v'])
+        return [{'mode': 'query', 'text': frac_text(v)}] + [{'mode': 'query', 'text': t} for t in self.PROBES]
 
     def judge(self, inputs, label, obs):
-        return 'kernel-only', ' | '.join(str(o.get('display')) for o in obs)
+        """a numeral shown without `approx.` must denote the raw value exactly (plain / scientific decimal numerals)"""
+        import re as _r
+        bad = []
+        for o in obs:
+            j = o.get('json') or {}
+            parts = j.get('value') if j.get('type') == 'conversion' else j
+            if not isinstance(parts, dict):
+                continue
+            ev, av = parts.get('exactValue'), parts.get('approxValue')
+            raw = obs_number_json(o)
+            if ev is None or av is not None or raw is None:
+                continue
+            m_ = _r.match(r'^(-?\d+(?:\.\d+)?)(?:e(-?\d+))?$', ev)
+            if not m_:
+                continue
+            den = Fraction(m_.group(1)) * Fraction(10) ** int(m_.group(2) or 0)
+            if den != raw[0]:
+                bad.append('%r is shown as exact but the value is %s' % (o.get('display'), raw[0]))
+        return (bool(bad), '; '.join(bad[:3]) or 'exact numerals denote their values')
 
 
 def harnesses(tier):
@@ -210,7 +244,7 @@ def harnesses(tier):
 # --------------------------------------------------------------------------------------------------------------
 from .c09 import CANON_STUB, DEFAULT_PARTS
 from .c15 import stub_eval_expr_value
-from mirsym.lib import MapV
+from mirsym.lib import MapV, SymSet
 
 
 def stub_numeric_value_env(ex, nc, args):
@@ -228,6 +262,18 @@ def stub_to_parts_base10(ex, nc, args):
     return Struct('NumberParts', vals)
 
 
+def stub_to_parts_digits_base(ex, nc, args):
+    """Number::to_parts_digits(self, ctx, base, digits): the printer's markers when asked for the requested base (2),
+    base-10 markers for any other base"""
+    p = stub_to_parts_base10(ex, nc, args)
+    if is_conc(simp(args[2])) and int(simp(args[2])) == 2:
+        fields = ex.prog.src.structs['NumberParts']
+        e, a = ex.env['numeric_value'].fields
+        p.fields[fields.index('exact_value')] = dup(e)
+        p.fields[fields.index('approx_value')] = dup(a)
+    return p
+
+
 class BaseConversionNumerals(Harness):
     name = 'eval_query.base_conversion.numerals'
     props = ('C05', 'C04')
@@ -237,7 +283,8 @@ class BaseConversionNumerals(Harness):
     stubs = (SHOW_STUB, CANON_STUB, DEFAULT_PARTS,
              (r'^eval_expr$', stub_eval_expr_value, 'eval_expr -> arbitrary Number'),
              (r'^Number::numeric_value$', stub_numeric_value_env, 'Number::numeric_value -> arbitrary (exact?, approx?) marker strings'),
-             (r'^Number::(to_parts|to_parts_digits)$', stub_to_parts_base10, 'Number::to_parts -> parts with base-10 marker numerals'))
+             (r'^Number::to_parts$', stub_to_parts_base10, 'Number::to_parts -> parts with base-10 marker numerals'),
+             (r'^Number::to_parts_digits$', stub_to_parts_digits_base, 'Number::to_parts_digits -> the printer\'s marker numerals iff asked for base 2, base-10 markers otherwise'))
     expect_classes = ['Result::Ok']
     _concrete = None
 
@@ -287,3 +334,570 @@ class BaseConversionNumerals(Harness):
 
 def harnesses(tier):   # noqa: F811
     return [Scientific(3 if tier == 'quick' else 6), Recurring([10] if tier == 'quick' else BASES), ExactMarker(), BaseConversionNumerals()]
+
+
+# ============================================================================================================
+# The long-division digit printer itself, bounded: |value| < base^2, digit budgets Default (6) and Digits(N<=3).
+
+def stub_size_in_base(ex, nc, args):
+    """BigInt::size_in_base(x, base) = 1 + floor(bits(x) * ln 2 / ln base): by the arithmetic of that formula it is the
+    true digit count or one more (never less), and exactly 1 for x = 0.  Both possibilities are explored."""
+    x = deref_all(args[0]).fields[0]
+    base = args[1]
+    if ex.branch(n_eq(x, 0), 'int part is zero'):
+        return 1
+    d = 1
+    while True:
+        if ex.branch(n_lt(x, base ** d), 'int part < base^%d' % d):
+            break
+        d += 1
+        if d > 6:
+            raise Unmodelled('integer part beyond the harness bound')
+    over = ex.choose(2, 'size_in_base over-estimates by one')
+    return d + over
+
+
+def stub_is_recurring(ex, nc, args):
+    """BigRat::is_recurring by its contract (decided for the real function by the bigrat.is_recurring harness):
+    None, or Some((D, p)) with 1 <= p < max_period, D / (base^p - 1) = self, 0 <= D < base^p."""
+    cur = deref_all(args[0]).fields[0]
+    base, mp = args[1], args[2]
+    mp = int(simp(mp))
+    k = ex.choose(min(mp, ex.env.get('max_block', 3) + 1), 'is_recurring result')        # 0 = None, p = 1..
+    if k == 0:
+        return none(ex)
+    D = ex.fresh('block', 'Int')
+    ex.assume(z3.And(D >= 0, D < base ** k))
+    ex.assume(z3.ToReal(D) == zreal(cur) * (base ** k - 1))
+    return some(ex, Tup([D, k]))
+
+
+def parse_numeral(chars, base):
+    """text produced by to_digits_impl (list of concrete code points / symbolic digit chars) ->
+    dict(neg, value (z3 Real), frac_len, recurring, valid (z3 Bool), period_text)"""
+    def is_p(c, ch):
+        return is_conc(c) and c == ord(ch)
+
+    def digit(c):
+        if is_conc(c):
+            s_ = chr(c)
+            v = int(s_, 36) if s_.isalnum() else 99
+            return z3.IntVal(v), z3.BoolVal(v < base)
+        c = zint(c)
+        v = z3.If(c <= 57, c - 48, c - 87)
+        ok_ = z3.And(v >= 0, v < base, z3.Or(z3.And(c >= 48, c <= 57), z3.And(c >= 97, c <= 122)))
+        return v, ok_
+    i = 0
+    neg = False
+    if chars and is_p(chars[0], '-'):
+        neg = True
+        i = 1
+    ip, fp, bp = [], [], []
+    where = 'int'
+    period_text = None
+    valid = []
+    while i < len(chars):
+        c = chars[i]
+        if is_p(c, '.') and where == 'int':
+            where = 'frac'
+        elif is_p(c, '['):
+            where = 'block'
+        elif is_p(c, ','):
+            # ", period N"
+            rest = ''.join(chr(x) for x in chars[i:] if is_conc(x))
+            import re as _r
+            mm = _r.match(r'^, period (\\d+)\\]\\.\\.\\.$', rest)
+            period_text = int(mm.group(1)) if mm else -1
+            i = len(chars)
+            where = 'done'
+            break
+        elif is_p(c, ']'):
+            where = 'done'
+            rest = ''.join(chr(x) if is_conc(x) else '?' for x in chars[i:])
+            valid.append(z3.BoolVal(rest == ']...'))
+            break
+        else:
+            v, ok_ = digit(c)
+            valid.append(ok_)
+            {'int': ip, 'frac': fp, 'block': bp}[where].append(v)
+        i += 1
+    val_ = z3.RealVal(0)
+    for d_ in ip:
+        val_ = val_ * base + z3.ToReal(d_)
+    scale = Fraction(1)
+    for d_ in fp:
+        scale = scale / base
+        val_ = val_ + z3.ToReal(d_) * zreal(scale)
+    if bp:
+        blk = z3.IntVal(0)
+        for d_ in bp:
+            blk = blk * base + d_
+        val_ = val_ + z3.ToReal(blk) * zreal(scale / (base ** len(bp) - 1))
+    return {'neg': neg, 'value': val_, 'frac_len': len(fp), 'block_len': len(bp), 'valid': z3.And(*valid) if valid else z3.BoolVal(True),
+            'period_text': period_text, 'int_len': len(ip)}
+
+
+class DigitPrinter(Harness):
+    props = ('C05', 'C04')
+    entry = 'BigRat::to_digits_impl'
+    stubs = ((r'^BigInt::size_in_base$', stub_size_in_base, 'BigInt::size_in_base -> true digit count or one more (arithmetic contract of the f64 formula)'),
+             (r'^BigRat::is_recurring$', stub_is_recurring, 'BigRat::is_recurring -> its contract (decided separately on the real function)'))
+    loop_bound = 40
+    max_paths = 20000
+    _concrete = None
+
+    def __init__(self, base, modes, span=2, sign=0, max_block=3):
+        self.base = base
+        self.modes = modes
+        self.span = span
+        self.sign = sign
+        self.max_block = max_block
+        self.name = 'bigrat.to_digits_impl.base%d.%s%s' % (base, '-'.join(modes).lower(), {0: '', 1: '.pos', -1: '.neg'}[sign])
+        self.describe = ('the long-division digit printer on an arbitrary rational with |value| < %d^%d (and >= %d^-2 unless zero), base %d, digit budgets %s: '
+                         'the text it returns is parsed back (integer digits, fraction digits, bracketed block) and compared with the value') % (
+            base, span, base, base, modes)
+        self.bounds = ['|value| in {0} u [base^-2, base^%d)' % span, 'digit budgets %s' % (modes,),
+                       'recurring periods: remainder-set detection up to the budget; the small-period shortcut by contract, blocks of at most %d digits' % max_block]
+        self.expect_classes = ['return']
+
+    def build(self, ex, I):
+        v = I.real('v')
+        b = self.base
+        a = z3.If(v >= 0, v, -v)
+        ex.assume(z3.And(a < b ** self.span, z3.Or(a == 0, a >= zreal(Fraction(1, b ** 2)))))
+        if self.sign:
+            ex.assume(v >= 0 if self.sign > 0 else v < 0)
+        ex.env['max_block'] = self.max_block
+        mode = self.modes[ex.choose(len(self.modes), 'digits mode')]
+        if mode == 'Default':
+            dg = variant(ex, 'Digits', 'Default')
+        else:
+            dg = variant(ex, 'Digits', 'Digits', [int(mode)])
+        return [ref(bigrat(v)), b, dg], {'v': v, 'mode': mode}
+
+    def post(self, ex, ctx, outcome):
+        v = zreal(ctx['v'])
+        b = self.base
+        t = deref_all(outcome[1])
+        exact, text = t.fields[0], deref_all(t.fields[1])
+        chars = [ord(c) for c in text] if isinstance(text, str) else list(text.chars) if isinstance(text, SymStr) else None
+        if chars is None:
+            return [('the numeral is a string of digits', False)]
+        shown = ''.join(chr(c) if is_conc(c) else 'd' for c in chars)
+        p = parse_numeral(chars, b)
+        a = z3.If(v >= 0, v, -v)
+        obs = [('[%s] every digit is a digit of base %d' % (shown, b), p['valid']),
+               ('[%s] a minus sign iff the value is negative' % shown, (v < 0) if p['neg'] else (v >= 0))]
+        recurring = p['block_len'] > 0
+        if recurring:
+            obs.append(('[%s] a numeral with a recurring block is marked exact' % shown, exact))
+            obs.append(('[%s] the recurring numeral denotes the value exactly' % shown, p['value'] == a))
+            if p['period_text'] is not None:
+                obs.append(('[%s] the stated period is the length of the block' % shown, p['period_text'] == p['block_len']))
+        else:
+            ulp = zreal(Fraction(1, b ** p['frac_len']))
+            obs.append(('[%s] marked exact => denotes the value exactly' % shown, z3.Implies(zbool(exact), p['value'] == a)))
+            obs.append(('[%s] not exact => truncation toward zero, error below one unit of the last digit' % shown,
+                        z3.Implies(z3.Not(zbool(exact)), z3.And(p['value'] <= a, a < p['value'] + ulp))))
+            obs.append(('[%s] a terminating value within the budget is not called approximate' % shown,
+                        z3.Implies(z3.Not(zbool(exact)), p['value'] != a)))
+        return obs
+
+    def case(self, ctx, vals, label):
+        c = Harness.case(self, ctx, vals, label)
+        c['inputs']['mode'] = ctx['mode']
+        c['inputs']['base'] = self.base
+        return c
+
+    def prefer(self, ctx):
+        v = ctx['v']
+        return [v > 0, z3.IsInt(v * 1000)]
+
+    def native(self, inputs, label):
+        v = Fraction(inputs['v'])
+        btxt = {2: ' binary', 8: ' octal', 10: '', 16: ' hex'}.get(self.base, ' base %d' % self.base)
+        m = inputs['mode']
+        dtxt = '' if m == 'Default' else ' digits %s' % m
+        return [{'mode': 'query', 'text': '%s ->%s%s' % (frac_text(v), dtxt, btxt) if (dtxt or btxt) else frac_text(v)}]
+
+    def judge(self, inputs, label, obs):
+        """parse the numeral rink prints for this value and re-check the same law with exact fractions"""
+        import re as _r
+        v = Fraction(inputs['v'])
+        q = obs[0]
+        if q.get('outcome') == 'panic' or q.get('render_panic'):
+            return True, 'panic %s' % (q.get('panic') or q.get('render_panic'))
+        j = q.get('json') or {}
+        parts = j.get('value') if j.get('type') == 'conversion' else j
+        if not isinstance(parts, dict):
+            return False, 'no numeral in reply %s' % q.get('display')
+        ev, av = parts.get('exactValue'), parts.get('approxValue')
+        b = self.base
+        bad = []
+        for txt, is_exact in ((ev, True), (av, False)):
+            if txt is None or '/' in txt or 'e' in txt.split('[')[0] and b <= 14:
+                continue
+            p = parse_numeral([ord(c) for c in txt], b)
+            val_ = z3.simplify(p['value'])
+            if not z3.is_rational_value(val_):
+                continue
+            den = Fraction(val_.numerator_as_long(), val_.denominator_as_long())
+            if p['neg']:
+                den = -den
+            if is_exact and den != v:
+                bad.append('exact numeral %r denotes %s, value is %s' % (txt, den, v))
+            if not is_exact:
+                ulp = Fraction(1, b ** p['frac_len'])
+                if not (abs(den) <= abs(v) < abs(den) + ulp):
+                    bad.append('approximate numeral %r denotes %s, value is %s (ulp %s)' % (txt, den, v, ulp))
+            if p['period_text'] not in (None, p['block_len']):
+                bad.append('numeral %r states period %s for a block of %d digits' % (txt, p['period_text'], p['block_len']))
+        return (bool(bad), '; '.join(bad) or 'printed numerals %r / %r denote %s' % (ev, av, v))
+
+
+_c05_prev = harnesses
+
+
+def harnesses(tier):   # noqa: F811
+    # DigitPrinter (whole-function exploration of the long division) is not registered: 190 paths / 9 min for the
+    # smallest budget and undecided block equations; the loop is decided one iteration at a time instead (below)
+    return _c05_prev(tier)
+
+
+# ============================================================================================================
+# The long division of to_digits_impl decided ONE ITERATION AT A TIME (loop-head induction):
+#   base case  - the real prologue, from the function entry to the first arrival at the loop head, establishes the
+#                state "0 digits produced";
+#   step       - from the state "n digits produced" (described by the specification of long division: digits d_0..d_n-1,
+#                remainders c_0..c_n, text printed so far, remainders remembered) one real iteration either returns a
+#                numeral - which must denote the value - or arrives at the loop head in the state "n+1 digits produced".
+# Together: every run of at most N+1 iterations returns a right numeral, without exploring the N-fold product of branches.
+
+LOOP_FN = 'BigRat::to_digits_impl'
+
+
+def digit_char(d):
+    return z3.If(zint(d) < 10, zint(d) + 48, zint(d) + 87)
+
+
+def loop_head_of(prog):
+    fn = prog.lookup(LOOP_FN)
+    if fn is None:
+        raise Unmodelled('%s not found in the MIR' % LOOP_FN)
+    fn.parse()
+    need = {'cursor', 'n', 'only_zeros', 'zeros', 'placed_decimal', 'seen_remainders', 'buf', 'intdigits', 'rational', 'sign'}
+    if not need <= set(fn.debug):
+        raise Unmodelled('to_digits_impl no longer has the loop variables %s' % sorted(need - set(fn.debug)))
+    # the `loop {}` head is the back-edge target that lies after all loop variables are initialised: the first one
+    # whose block reads `cursor`
+    for hd in fn.loop_heads():
+        raw = ' '.join(fn.blocks[hd].raw)
+        if ('_%d' % fn.debug['cursor'][0]) in raw:
+            return fn, hd
+    raise Unmodelled('loop head of to_digits_impl not found')
+
+
+class DigitState:
+    """the specification of the state after n iterations, for concrete (sign, intdigits I, n, leading zeros z)"""
+
+    def __init__(self, ex, I_, base, neg, Ic, n, z):
+        self.base, self.neg, self.Ic, self.n, self.z = base, neg, Ic, n, z
+        V = I_.real('v')
+        ex.assume(V >= 0)
+        ex.assume(V < base ** Ic)
+        if Ic >= 2:
+            ex.assume(V >= zreal(Fraction(base) ** (Ic - 2)))
+        if neg:
+            ex.assume(V > 0)
+        self.V = V
+        self.d = [I_.int('d%d' % i) for i in range(n)]
+        self.c = [V / (base ** Ic)]
+        for i in range(n):
+            ex.assume(z3.And(self.d[i] >= 0, self.d[i] < base))
+            self.c.append(self.c[i] * base - z3.ToReal(self.d[i]))
+        for ci in self.c:
+            ex.assume(z3.And(ci >= 0, ci < 1))
+        for i in range(min(z, n)):
+            ex.assume(self.d[i] == 0)
+        if z < n:
+            ex.assume(self.d[z] != 0)
+        # remembered remainders are pairwise distinct (a repeat returns)
+        seen = self.seen_cursors()
+        for i in range(len(seen)):
+            for j in range(i + 1, len(seen)):
+                ex.assume(seen[i] != seen[j])
+
+    def seen_cursors(self):
+        return [self.c[i] for i in range(self.Ic, self.n)] if self.n > self.Ic else []
+
+    def chars(self):
+        out = [ord('-')] if self.neg else []
+        for i in range(self.n):
+            if i == self.Ic:
+                out.append(ord('.'))
+            if i >= self.z or i >= self.Ic - 1:
+                out.append(digit_char(self.d[i]))
+        return out
+
+    def locals(self, ex, mode):
+        b = self.base
+        seen = SymSet()
+        seen.items = [bigrat(x) for x in self.seen_cursors()]
+        cs = self.chars()
+        buf = ''.join(chr(c) for c in cs) if all(is_conc(c) for c in cs) else SymStr(cs)
+        dg = variant(ex, 'Digits', 'Default') if mode == 'Default' else variant(ex, 'Digits', 'Digits', [int(mode)])
+        v_signed = -self.V if self.neg else self.V
+        return {'self': ref(bigrat(v_signed)), 'base': b, 'digits': dg, 'sign': bool(self.neg), 'rational': bigrat(self.V),
+                'intdigits': self.Ic, 'buf': buf, 'zero': bigrat(Fraction(0)), 'one': bigint(1), 'ten': bigint(b),
+                'ten_rational': bigrat(Fraction(b)), 'cursor': bigrat(self.c[self.n]), 'n': self.n, 'only_zeros': self.z >= self.n,
+                'zeros': min(self.z, self.n), 'placed_decimal': self.n > self.Ic, 'seen_remainders': seen}
+
+
+def text_chars(text):
+    text = deref_all(text)
+    if isinstance(text, str):
+        return [ord(c) for c in text]
+    if isinstance(text, SymStr):
+        return list(text.chars)
+    return None
+
+
+def numeral_obligations(chars, exact, V, b):
+    shown = ''.join(chr(c) if is_conc(c) else 'd' for c in chars)
+    p = parse_numeral([c for c in chars if not (is_conc(c) and c == ord('-'))] if False else chars, b)
+    obs = [('[%s] every digit is a digit of base %d' % (shown, b), p['valid'])]
+    if p['block_len'] > 0:
+        obs.append(('[%s] a numeral with a recurring block is marked exact' % shown, exact))
+        obs.append(('[%s] the recurring numeral denotes the value exactly' % shown, p['value'] == V))
+        if p['period_text'] is not None:
+            obs.append(('[%s] the stated period is the length of the block' % shown, p['period_text'] == p['block_len']))
+    else:
+        ulp = zreal(Fraction(1, b ** p['frac_len']))
+        obs.append(('[%s] marked exact => denotes the value exactly' % shown, z3.Implies(zbool(exact), p['value'] == V)))
+        obs.append(('[%s] not exact => truncation toward zero, error below one unit of the last digit' % shown,
+                    z3.Implies(z3.Not(zbool(exact)), z3.And(p['value'] <= V, V < p['value'] + ulp))))
+        obs.append(('[%s] a terminating value within the budget is not called approximate' % shown,
+                    z3.Implies(z3.Not(zbool(exact)), p['value'] != V)))
+    return obs, p
+
+
+class DigitLoopStep(Harness):
+    props = ('C05', 'C04')
+    stubs = ((r'^BigInt::size_in_base$', stub_size_in_base, 'BigInt::size_in_base -> true digit count or one more (arithmetic contract of the f64 formula)'),
+             (r'^BigRat::is_recurring$', stub_is_recurring, 'BigRat::is_recurring -> its contract (decided on the real function by bigrat.is_recurring)'))
+    loop_bound = 14
+    max_paths = 60000
+    _concrete = None
+
+    def __init__(self, base, modes, Ics, N, zs=None, max_block=9):
+        self.base, self.modes, self.Ics, self.N, self.zs, self.max_block = base, modes, Ics, N, zs, max_block
+        self.name = 'bigrat.to_digits_impl.loop_step.base%d.int%s' % (base, '_'.join(str(i) for i in Ics))
+        self.entry_name = 'BigRat::to_digits_impl: one iteration of its loop from the loop head'
+        self.describe = ('one real iteration of the long-division loop from the specified state "n digits produced" (n <= %d, integer-digit '
+                         'estimates %s, any number of leading zeros, either sign, digit budgets %s, base %d): it returns a numeral that denotes the '
+                         'value (exact / recurring / truncated), or arrives at the loop head in the specified state "n+1 digits produced"') % (
+            N, Ics, modes, base)
+        self.bounds = ['at most %d digits produced before the iteration' % N, 'intdigits in %s' % (Ics,), 'digit budgets %s' % (modes,),
+                       'recurring blocks reported by the small-period shortcut: at most %d digits' % max_block]
+        self.assumptions = ['pre-state = specification of long division after n steps (digits d_i = floor(base * c_i), remainders c_i in [0,1), '
+                            'remembered remainders pairwise distinct); reachability of the pre-state is established by the base-case harness '
+                            'and by this step itself (induction on n)']
+        self.expect_classes = ['return', 'loop-head']
+
+    def build(self, ex, I):
+        b = self.base
+        mode = self.modes[ex.choose(len(self.modes), 'digits mode')]
+        neg = ex.choose(2, 'negative')
+        Ic = self.Ics[ex.choose(len(self.Ics), 'intdigits')]
+        n = ex.choose(self.N + 1, 'digits produced so far')
+        zopts = list(range(n + 1)) if self.zs is None else sorted(set(min(zz, n) for zz in self.zs) | {n})
+        z = zopts[ex.choose(len(zopts), 'leading zero digits')]
+        ex.env['max_block'] = self.max_block
+        st = DigitState(ex, I, b, neg, Ic, n, z)
+        fn, head = loop_head_of(ex.prog)
+        return [fn, head, st.locals(ex, mode)], {'st': st, 'mode': mode}
+
+    def entry(self, ex, args, ctx):
+        fn, head, loc = args
+        kind, r = ex.exec_loop_entry(fn, head, locals_by_name=loc)
+        ctx['kind'] = kind
+        return Tup([kind, r]) if kind == 'return' else r
+
+    def classify(self, outcome):
+        if outcome[0] == 'panic':
+            return 'panic'
+        return 'loop-head' if isinstance(outcome[1], dict) else 'return'
+
+    def post(self, ex, ctx, outcome):
+        st = ctx['st']
+        b, n, Ic, z = st.base, st.n, st.Ic, st.z
+        if not isinstance(outcome[1], dict):
+            t = deref_all(deref_all(outcome[1]).fields[1])
+            exact, text = t.fields[0], t.fields[1]
+            chars = text_chars(text)
+            if chars is None:
+                return [('the numeral is a string of digits', False)]
+            has_minus = bool(chars) and is_conc(chars[0]) and chars[0] == ord('-')
+            obs, p = numeral_obligations(chars, exact, st.V, b)
+            obs.append(('a minus sign iff the value is negative', has_minus == bool(st.neg)))
+            return obs
+        s2 = outcome[1]
+        cur2 = zreal(deref_all(s2['cursor']).fields[0])
+        dnew = st.c[n] * b - cur2                     # the digit this iteration produced
+        only_zeros = z >= n
+        obs = [('next remainder = base * remainder - digit with an integer digit', z3.IsInt(dnew)),
+               ('next remainder lies in [0, 1)', z3.And(cur2 >= 0, cur2 < 1)),
+               ('n advances by one', n_eq(s2['n'], n + 1)),
+               ('intdigits, value and sign are untouched', b_and(n_eq(s2['intdigits'], Ic), b_and(n_eq(deref_all(s2['rational']).fields[0], st.V), s2['sign'] == bool(st.neg)))),
+               ('radix point placed from the iteration n = intdigits on', s2['placed_decimal'] == (n >= Ic))]
+        dz = dnew == 0
+        if only_zeros:
+            obs.append(('leading-zero bookkeeping: only_zeros', zbool(s2['only_zeros']) == dz))
+            obs.append(('leading-zero bookkeeping: zeros', zint(s2['zeros']) == z3.If(dz, z + 1, z)))
+        else:
+            obs.append(('leading-zero bookkeeping unchanged after a non-zero digit', b_and(s2['only_zeros'] is False or simp(s2['only_zeros']) is False, n_eq(s2['zeros'], min(z, n)))))
+        # text
+        chars2 = text_chars(s2['buf'])
+        want = st.chars() + ([ord('.')] if n == Ic else [])
+        if chars2 is None:
+            obs.append(('text so far is a string', False))
+        else:
+            pushed = len(chars2) == len(want) + 1
+            if len(chars2) not in (len(want), len(want) + 1):
+                obs.append(('text grows by at most a radix point and one digit', False))
+            else:
+                same = z3.And(*[zint(a) == zint(c) for a, c in zip(chars2, want)]) if want else z3.BoolVal(True)
+                obs.append(('text printed so far is kept, radix point at the iteration n = intdigits', same))
+                must = z3.BoolVal(True) if (not only_zeros or n >= Ic - 1) else z3.Not(dz)
+                obs.append(('the digit is printed unless it is a leading zero left of the units place', z3.BoolVal(pushed) == must))
+                if pushed:
+                    obs.append(('the printed character is the digit', zint(chars2[-1]) == digit_char(z3.ToInt(dnew))))
+        # remembered remainders
+        items = [zreal(deref_all(x).fields[0]) for x in deref_all(s2['seen_remainders']).items]
+        want_seen = st.seen_cursors() + ([st.c[n]] if n >= Ic else [])
+        obs.append(('remainders are remembered from the first fraction digit on, in order',
+                    len(items) == len(want_seen) and (z3.And(*[a == c for a, c in zip(items, want_seen)]) if items else True)))
+        return obs
+
+    def case(self, ctx, vals, label):
+        c = Harness.case(self, ctx, vals, label)
+        st = ctx['st']
+        c['inputs'].update({'mode': ctx['mode'], 'base': st.base, 'negative': bool(st.neg), 'intdigits': st.Ic, 'n': st.n, 'z': st.z})
+        return c
+
+    def prefer(self, ctx):
+        st = ctx['st']
+        out = []
+        # steer models to states the small-period shortcut would not have ended earlier
+        for ck in st.seen_cursors():
+            for p_ in (1, 2, 3):
+                out.append(z3.Not(z3.IsInt(ck * (st.base ** p_ - 1))))
+        return out
+
+    def native(self, inputs, label):
+        v = Fraction(inputs['v'])
+        if inputs.get('negative'):
+            v = -v
+        m = inputs['mode']
+        return [{'mode': 'rat_to_string', 'fn': 'to_string', 'v': '%d/%d' % (v.numerator, v.denominator), 'base': int(inputs['base']),
+                 'digits': 'FullInt' if m == 'Default' else str(m)}] + (
+            [{'mode': 'query', 'text': frac_text(v)}] if m == 'Default' and int(inputs['base']) == 10 else [])
+
+    def judge(self, inputs, label, obs):
+        v = Fraction(inputs['v'])
+        if inputs.get('negative'):
+            v = -v
+        bad = []
+        o = obs[0]
+        if o.get('outcome') != 'ok':
+            return True, 'to_string: %s %s' % (o.get('outcome'), o.get('panic', ''))
+        pr = numeral_problem(o['text'], o['exact'], v, int(inputs['base']), sci=False)
+        if pr:
+            bad.append(pr)
+        for q in obs[1:]:
+            if q.get('outcome') == 'panic' or q.get('render_panic'):
+                bad.append('`%s` panics: %s' % (frac_text(v), q.get('panic') or q.get('render_panic')))
+        return bool(bad), '; '.join(bad) or 'to_string(%s) = %r denotes the value' % (v, o['text'])
+
+
+class DigitLoopBase(Harness):
+    """base case: the real prologue of to_digits_impl up to the first arrival at the loop head"""
+    props = ('C05', 'C04')
+    stubs = DigitLoopStep.stubs
+    loop_bound = 14
+    _concrete = None
+
+    def __init__(self, base):
+        self.base = base
+        self.name = 'bigrat.to_digits_impl.loop_entry.base%d' % base
+        self.entry_name = 'BigRat::to_digits_impl: entry to loop head'
+        self.describe = 'the prologue of to_digits_impl on an arbitrary rational below base^3 establishes the state "0 digits produced" the step harness starts from'
+        self.bounds = ['|value| < base^3']
+        self.expect_classes = ['loop-head']
+
+    def build(self, ex, I):
+        v = I.real('v')
+        b = self.base
+        a = z3.If(v >= 0, v, -v)
+        ex.assume(a < b ** 3)
+        mode = ['Default', '2'][ex.choose(2, 'digits mode')]
+        dg = variant(ex, 'Digits', 'Default') if mode == 'Default' else variant(ex, 'Digits', 'Digits', [2])
+        fn, head = loop_head_of(ex.prog)
+        return [fn, head, [ref(bigrat(v)), b, dg]], {'v': v, 'a': a}
+
+    def entry(self, ex, args, ctx):
+        fn, head, a = args
+        kind, r = ex.exec_loop_entry(fn, head, from_entry_args=a)
+        return r if kind == 'head' else Tup([kind, r])
+
+    def classify(self, outcome):
+        if outcome[0] == 'panic':
+            return 'panic'
+        return 'loop-head' if isinstance(outcome[1], dict) else 'return'
+
+    def post(self, ex, ctx, outcome):
+        if not isinstance(outcome[1], dict):
+            return [('the prologue reaches the loop', False)]
+        s = outcome[1]
+        b, v, a = self.base, ctx['v'], ctx['a']
+        Ic = s['intdigits']
+        if not is_conc(simp(Ic)):
+            return [('intdigits is decided by the digit-count stub', False)]
+        Ic = int(simp(Ic))
+        chars = text_chars(s['buf'])
+        neg = bool(chars) and chars == [ord('-')]
+        seen = deref_all(s['seen_remainders'])
+        return [('value below base^intdigits (digit count never under-estimated)', a < b ** Ic),
+                ('digit count over-estimated by at most one', a >= zreal(Fraction(b) ** (Ic - 2)) if Ic >= 2 else True),
+                ('first remainder = |value| / base^intdigits', zreal(deref_all(s['cursor']).fields[0]) == a / (b ** Ic)),
+                ('rational = |value|', zreal(deref_all(s['rational']).fields[0]) == a),
+                ('text is the sign only', (chars == [] and True) or neg), ('minus sign iff negative', z3.BoolVal(neg) == (v < 0)),
+                ('sign flag', zbool(s['sign']) == (v < 0)),
+                ('counters start at zero', b_and(n_eq(s['n'], 0), b_and(n_eq(s['zeros'], 0), b_and(s['only_zeros'] is True or simp(s['only_zeros']) is True,
+                                                                                              s['placed_decimal'] is False or simp(s['placed_decimal']) is False)))),
+                ('no remainder remembered yet', len(seen.items) == 0)]
+
+    def native(self, inputs, label):
+        return []
+
+    def judge(self, inputs, label, obs):
+        return False, 'prologue state (no native form)'
+
+
+_c05_prev3 = harnesses
+LOOP_STEP_ENABLED = False
+
+
+def harnesses(tier):   # noqa: F811
+    hs = _c05_prev3(tier)
+    hs.append(DigitLoopBase(10))
+    if not LOOP_STEP_ENABLED:
+        return hs
+    if tier == 'quick':
+        hs += [DigitLoopStep(10, ['Default', '2'], [1], 8, zs=[0, 1]), DigitLoopStep(10, ['Default', '2'], [2], 8, zs=[0, 1])]
+    else:
+        hs += [DigitLoopBase(2), DigitLoopBase(16)]
+        for Ic in (1, 2, 3):
+            hs.append(DigitLoopStep(10, ['Default', '0', '3'], [Ic], 14))
+        hs += [DigitLoopStep(2, ['Default', '2'], [1, 2], 10), DigitLoopStep(16, ['Default', '2'], [1, 2], 10)]
+    return hs
